@@ -71,7 +71,13 @@ pub fn expr_into_metadatum(
 pub fn expr_into_utxo_refs(expr: &tir::Expression) -> Result<Vec<UtxoRef>, Error> {
     match expr {
         tir::Expression::UtxoRefs(x) => Ok(x.clone()),
-        tir::Expression::UtxoSet(x) => Ok(x.iter().map(|x| x.r#ref.clone()).collect()),
+        tir::Expression::UtxoSet(x) => {
+            // a hash set has no stable iteration order: sort so that the same
+            // template always compiles to the same bytes
+            let mut refs: Vec<_> = x.iter().map(|x| x.r#ref.clone()).collect();
+            refs.sort_by(|a, b| (&a.txid, a.index).cmp(&(&b.txid, b.index)));
+            Ok(refs)
+        }
         tir::Expression::String(x) => {
             let (raw_txid, raw_output_ix) = x.split_once("#").expect("Invalid utxo ref");
             Ok(vec![UtxoRef {
